@@ -1,5 +1,6 @@
 import ClipVerif.Proofs.C16
 import ClipVerif.Proofs.C16b
+import ClipVerif.Proofs.C16c
 /-
 C16 — SimplifyPath removes only near-collinear vertices.  Theorems about the hand model
 `Model.simplifyPath`, generic in the distance type (so they cover SimplifyPath64 and SimplifyPathD
@@ -68,5 +69,18 @@ theorem simplify_post_needs_symmetry :
            getNext i high s.flags ≠ getPrior i high s.flags →
            ¬ (dist path[i]! path[getPrior i high s.flags]! path[getNext i high s.flags]! ≤ epsSq)) := by
   exact Proofs.C16b.needs_symmetry
+
+/-- the retained indices do not change under any map of the plane that preserves the distance function
+    — in particular under every translation, mirror image and quarter turn when the distance is
+    computed from coordinate differences: the algorithm looks at the points only through `dist`.
+    (That the float64 distance of the code IS translation invariant within 2^53 is not proved — no theorem
+    mentions `Float` — and is explored by c16-search.) -/
+theorem simplify_map_invariant {D : Type} [LT D] [LE D] [DecidableRel (α := D) (· < ·)]
+    [DecidableRel (α := D) (· ≤ ·)] [Inhabited D]
+    (dist : Point64 → Point64 → Point64 → D) (maxD : D) (path : Array Point64) (epsSq : D) (isClosed : Bool)
+    (f : Point64 → Point64) (hf : ∀ a b c, dist (f a) (f b) (f c) = dist a b c) :
+    Model.simplifyPath dist maxD (path.map f) epsSq isClosed =
+      (Model.simplifyPath dist maxD path epsSq isClosed).map f := by
+  exact Proofs.C16c.simplify_map dist maxD path epsSq isClosed f hf
 
 end C16
